@@ -59,6 +59,17 @@ func (f *formatValidator) Applies(source interface{}, kind reflect.Kind) bool {
 		return false
 	}
 
+	if f.Format != "" {
+		// the validator's own format decides: an items object has its own format, which is not the
+		// format of the parameter or header it belongs to
+		switch source.(type) {
+		case *spec.Items, *spec.Parameter, *spec.Schema, *spec.Header:
+			return kind == reflect.String && f.KnownFormats.ContainsName(f.Format)
+		default:
+			return false
+		}
+	}
+
 	switch source := source.(type) {
 	case *spec.Items:
 		return kind == reflect.String && f.KnownFormats.ContainsName(source.Format)
